@@ -5,6 +5,7 @@ package certurl
 import (
 	"bytes"
 
+	"github.com/WICG/webpackage/go/internal/cbor"
 	"github.com/WICG/webpackage/go/internal/vh"
 )
 
@@ -41,4 +42,48 @@ func VH_C10_ReadCertChainCounts() {
 	}
 	p := vh.Try(func() { ReadCertChain(bytes.NewReader(in)) })
 	vh.Assert(!p, "ReadCertChain does not panic whatever element counts the input declares")
+}
+
+// VH_C10_AugmentedCertificateShapes: DecodeAugmentedCertificateFrom - the shared helper behind ReadCertChain AND the
+// bundle signatures-section parser - on certificate maps of every key shape: the empty map, maps holding only
+// "ocsp" and/or "sct" (symbolic one-byte values), a map with an unknown key, "cert" with 0..2 SYMBOLIC bytes (x509
+// parse outcome idealised), keys in any of these combinations: never panics, and whenever it returns without error
+// the result carries a certificate (Cert != nil) - every caller dereferences it (bundle/signature's verifier,
+// dump tools) without a further check.  Seed C10-4 (the "must have a cert key" check moved into
+// CertChain.Validate, which only ReadCertChain runs) was missed: the parser harnesses checked each entry point
+// for panics separately, and the nil certificate only blows up in the NEXT module.
+func VH_C10_AugmentedCertificateShapes() {
+	vh.MustReach("accepted", "refused")
+	tstr := func(s string) []byte { return append([]byte{0x60 | byte(len(s))}, s...) }
+	var ents [][]byte
+	if vh.Choose(2) == 1 {
+		c := vh.Bytes("cert", vh.Choose(3))
+		ents = append(ents, append(append(tstr("cert"), 0x40|byte(len(c))), c...))
+	}
+	if vh.Choose(2) == 1 {
+		ents = append(ents, append(append(tstr("ocsp"), 0x41), vh.Byte("ocsp")))
+	}
+	if vh.Choose(2) == 1 {
+		ents = append(ents, append(append(tstr("sct"), 0x41), vh.Byte("sct")))
+	}
+	if vh.Choose(3) == 2 {
+		ents = append(ents, append(append(tstr("zz"), 0x41), 7))
+	}
+	in := []byte{0xa0 | byte(len(ents))}
+	for _, e := range ents {
+		in = append(in, e...)
+	}
+	var ac *AugmentedCertificate
+	var err error
+	p := vh.Try(func() { ac, err = DecodeAugmentedCertificateFrom(cbor.NewDecoder(bytes.NewReader(in))) })
+	vh.Assert(!p, "DecodeAugmentedCertificateFrom does not panic")
+	if p {
+		return
+	}
+	if err != nil {
+		vh.Reach("refused")
+		return
+	}
+	vh.Reach("accepted")
+	vh.Assert(ac != nil && ac.Cert != nil, "an accepted augmented certificate always carries a certificate")
 }
